@@ -312,6 +312,20 @@ func (m *machine) stop(t *rapid.T) {
 	h.stopped = true
 	m.nontrivial = true
 	m.log("Stop(%s)", h.name)
+	// "once Started() is closed Stop() is usable": also a second time, when the handler is long gone (a deferred
+	// clean-up Stop after the handler was stopped or its subscription dropped)
+	if rapid.Bool().Draw(t, "stopAgainLater") {
+		time.Sleep(2 * time.Millisecond)
+		func() {
+			defer func() {
+				if r := recover(); r != nil {
+					t.Fatalf("violation: a second Stop() of %s (already stopped) panicked: %v (ops %v)", h.name, r, m.ops)
+				}
+			}()
+			h.handle.Stop()
+		}()
+		m.log("Stop(%s) again", h.name)
+	}
 	// was that the last handler? then the router closes itself
 	alive := 0
 	for _, o := range m.hs {
@@ -769,6 +783,18 @@ func TestStartupInterference(t *testing.T) {
 					}
 				}
 			default:
+			}
+			// ... and a Run that comes after that Close still ends: at once, or at the latest when its context is cancelled
+			rctx, rcancel := context.WithCancel(context.Background())
+			defer rcancel()
+			lateRun := make(chan error, 1)
+			go func() { lateRun <- router.Run(rctx) }()
+			time.Sleep(2 * time.Millisecond)
+			rcancel()
+			select {
+			case <-lateRun:
+			case <-time.After(lib.Live):
+				t.Fatalf("violation: Run() called after Close() did not return within %v after its context was cancelled", lib.Live)
 			}
 			lib.Case(fmt.Sprintf("startup|%s|%d", action, n), true, "startup-interference", action)
 			return
